@@ -73,33 +73,30 @@ def insTok (t : Nat) : List Nat → List Nat
   | [] => [t]
   | x :: xs => if t ≤ x then t :: x :: xs else x :: insTok t xs
 
-def mergeToks (a b : List Nat) : List Nat := a.foldl (fun acc t => insTok t acc) b
-
-def insKV (k : Nat) (ts : List Nat) : Content → Content
-  | [] => [(k, ts)]
-  | (k', ts') :: rest =>
-    if k < k' then (k, ts) :: (k', ts') :: rest
-    else if k = k' then (k', mergeToks ts ts') :: rest
-    else (k', ts') :: insKV k ts rest
-
-/-- what the harness' merger writes for the inputs of a compaction (values of one key are
-concatenated token-wise and sorted, so the result does not depend on iterator order) -/
-def mergeContent (cs : List Content) : Content :=
-  cs.foldl (fun acc c => c.foldl (fun a kv => insKV kv.1 kv.2 a) acc) []
-
 /-- ascending sort (directory listings are sorted by file name = number) -/
 def sortNat (l : List Nat) : List Nat := l.foldr insTok []
+
+/-- remove duplicates (keeps the last occurrence) -/
+def dedupNat (l : List Nat) : List Nat :=
+  l.foldr (fun x acc => if acc.contains x then acc else x :: acc) []
+
+def lookupKey (c : Content) (k : Nat) : Option (List Nat) :=
+  match c.find? (fun kv => kv.1 == k) with
+  | some kv => some kv.2
+  | none => none
+
+/-- what the harness' merger writes for the inputs of a compaction: the merged iterator visits
+the keys of all inputs in ascending order; for each key the value tokens of all inputs are
+concatenated and sorted (so the result does not depend on iterator order) -/
+def mergeContent (cs : List Content) : Content :=
+  (sortNat (dedupNat (cs.flatMap (fun c => c.map (·.1))))).map
+    (fun k => (k, sortNat (cs.flatMap (fun c => (lookupKey c k).getD []))))
 
 def contentMin (c : Content) : Nat := match c with | [] => 0 | kv :: _ => kv.1
 def contentMax : Content → Nat
   | [] => 0
   | [kv] => kv.1
   | _ :: rest => contentMax rest
-
-def lookupKey (c : Content) (k : Nat) : Option (List Nat) :=
-  match c.find? (fun kv => kv.1 == k) with
-  | some kv => some kv.2
-  | none => none
 
 /-- `version.PickL0Compaction(threshold)`: all level-0 files + the overlapping level-1 files -/
 def overlaps (lo up : FileMeta) : Bool := !(up.maxKey < lo.minKey || up.minKey > lo.maxKey)
@@ -618,6 +615,11 @@ def commit : List String :=
 (one `getReader` step each); the error path does nothing else -/
 def findReaders : List String := ["version.FindFiles", "fileMeta.GetFileNumber", "Table", "cache.GetReader", "append", "append"]
 def findReadersErrPath : List String := []
+/-- `version.FindFiles`: every table of every level is tested against the key, no early exit
+(`findFiles` = a filter over all files) -/
+def findFilesShape : List String :=
+  ["for-range:v.levels", "for-range:level.getFiles()", "if:key>=file.GetMinKey()&&key<=file.GetMaxKey()",
+   "files=append", "endif", "endfor", "endfor", "return"]
 /-- `snapshot.Close`: the whole release is inside `if s.closed.CompareAndSwap(false, true)` -/
 def snapshotCloseShape : List String := ["if(closed-cas)", "version.Release", "cache.ReleaseReaders", "endif"]
 def nextFileNumber : List String := ["mutex.Lock", "defer:mutex.Unlock", "nextFileNumber.Inc"]
